@@ -10,8 +10,8 @@ LEVEL_NOTE = (
     'Trusted: Lean kernel, axioms propext/Classical.choice/Quot.sound only, the harness and driver, the hand-written model (tied by correspondence, not proof). i128 overflow is outside the theorems (amounts are Int); HashMap order is abstracted and proved immaterial.'
 )
 PROP = "C15"
-LEAN_TARGETS = ["Tx3Proofs.C15"]
-AUDIT_MODULES = ["Tx3Proofs.C15"]
+LEAN_TARGETS = ["Tx3Proofs.C15", "Tx3Proofs.C15Expr"]
+AUDIT_MODULES = ["Tx3Proofs.C15", "Tx3Proofs.C15Expr"]
 NS = "Tx3.Assets."
 THEOREMS = [NS + t for t in [
     "C15_wf_constructors", "C15_wf_ops",
@@ -20,10 +20,11 @@ THEOREMS = [NS + t for t in [
     "C15_add_zero", "C15_add_neg_self",
     "C15_eq_semantic", "C15_structural_eq_not_semantic",
     "C15_contains", "C15_exprs", "C15_exprs_any_order", "C15_exprs_needs_proper",
-]]
+]] + ["Tx3.C15_expr_sub_is_add_neg"]
 
 RULE = (
-    "cases = (a, b, c) op trees over the whole public API of CanonicalAssets "
+    "cases = the law a - b = a + (-b) on reduced expressions for every pair of operands from nothing (None), numbers "
+    "and asset lists (49 pairs, both sides reduced by the real reducer); (a, b, c) op trees over the whole public API of CanonicalAssets "
     "(every constructor incl. the empty-policy/empty-name fall-throughs, Add, Sub, Neg): "
     "corpus; exhaustive pairs (a,b) over 3 classes x amounts -2..2 with random construction "
     "paths (thorough: a third of the full cube of triples); random classes with amounts across "
